@@ -255,8 +255,10 @@ func (p *Pool) JSON() []vt.M {
 		for _, q := range d.Peers {
 			peers = append(peers, []int{q[0], q[1]})
 		}
+		bad := []int{}
+		bad = append(bad, d.Bad...)
 		out = append(out, vt.M{"id": d.ID, "ts": d.TS, "sv": d.SV, "exp": d.Exp, "hops": hops,
-			"peers": peers})
+			"peers": peers, "bad": bad})
 	}
 	return out
 }
